@@ -364,6 +364,12 @@ func (m namedMapImportable) Import(string) (interface{}, error) {
 	return &tengo.ImmutableMap{Value: map[string]tengo.Object{"__module_name__": &tengo.String{Value: "same"}, "v": &tengo.Int{Value: m.v}}}, nil
 }
 
+type negZeroImportable struct{}
+
+func (negZeroImportable) Import(string) (interface{}, error) {
+	return &tengo.Float{Value: math.Copysign(0, -1)}, nil
+}
+
 // ownProbes re-runs the two inputs. A failing probe is reported as a known-finding hit unless the known
 // file lists it as fixed (then it is a regression and a violation).
 func ownProbes(knownPath string) {
@@ -389,6 +395,7 @@ func ownProbes(knownPath string) {
 	mm.Add("e", errImportable{})
 	mm.Add("a", namedMapImportable{1})
 	mm.Add("b", namedMapImportable{2})
+	mm.Add("nz", negZeroImportable{})
 	run := func(src string, transform func(*tengo.Bytecode) *tengo.Bytecode) (string, string) {
 		c, err := lib.CompileSource([]byte(src), lib.CompileOpts{Modules: mm})
 		if err != nil {
@@ -422,6 +429,14 @@ func ownProbes(knownPath string) {
 	if want != got {
 		obs = got + " (original: " + want + ")"
 	}
+	src3 := "z := 0.0\nnz := import(\"nz\")\nb := 1.0 / nz\n"
+	want3, got3 := run(src3, func(bc *tengo.Bytecode) *tengo.Bytecode { bc.RemoveDuplicates(); return bc })
+	obs3 := ""
+	if want3 != got3 {
+		obs3 = got3 + " (original: " + want3 + ")"
+	}
+	report("C12-F3", "dedup-merges-negative-zero-with-zero", "custom Importable returning &Float{-0.0}; "+src3, obs3,
+		"RemoveDuplicates keys float constants by the Go map key float64: -0.0 and 0.0 are one key, the constant -0.0 is replaced by 0.0")
 	report("C12-F2", "dedup-merges-distinct-maps-with-equal-module-name", "two custom Importables returning different immutable maps with the same __module_name__; "+src2, obs,
 		"RemoveDuplicates keys *ImmutableMap constants by __module_name__ only")
 }
